@@ -13,11 +13,21 @@ Streams
   foreign  XML "written by another tool": the written text re-ordered / padded / re-cased
            (benign: must load to the same document) or damaged (correspondence with the
            strict and lenient reader model only)
+  surface  (round 3) the same element tree in the other legal spellings of an XML file: declared
+           encodings (UTF-8/16, Latin-1/9, cp1252, US-ASCII with character references), byte order
+           marks, declaration styles, prolog / epilog, line ends, CDATA, root tag spelling, no
+           white space; file / bytes / str / stream entry points; reader model + oracle
+  session  (round 3, oracle only) one writer / reader object used several times, with an edit in
+           between, after a refused or failed call; loaded documents saved again; other features
+           of the library used in between
+  proc     (round 3, oracle only) the round trip in a fresh interpreter under another locale,
+           hash seed, optimisation level
 """
 import csv
 import datetime
 import io
 import os
+import re
 import shutil
 import sys
 import tempfile
@@ -30,21 +40,55 @@ warnings.simplefilter("ignore")
 
 ATOMS = [u"a", u"b", u"x", u"1", u",", u'"', u"[", u"]", u"(", u")", u";", u"\n", u"\r", u" ",
          u"\xa0", u"<", u"&", u"\xe9", u"中", u"\t", u"'", u">", u"-", u"."]
+# second alphabet (round 3): characters that mean something to the machinery *around* the value
+# encoding - %-formatting, str.format, string.Template, re.sub replacement strings, URLs / file
+# names, XML character references - and characters at the edges of what encodings, str.strip and
+# XML 1.0 treat alike: Latin-1 / cp1252 / Latin-9 letters, astral, combining, zero width, BOM,
+# C1 controls, the white space of str.strip beyond ASCII (FS..US, NEL, IDEOGRAPHIC SPACE, VT, FF)
+ATOMS2 = [u"%", u"%", u"{", u"}", u"$", u"\\", u"#", u"/", u":", u"=", u"*", u"?", u"!", u"|", u"~",
+          u"^", u"`", u"@", u"+", u"_", u"0", u"s", u"d", u"\u20ac", u"\xb5", u"\xfc", u"\xdf",
+          u"\U0001F600", u"\u0301", u"\u200b", u"\u3000", u"\x85", u"\u2028", u"\ufeff", u"\x7f",
+          u"\x9f", u"\x80", u"\u0153"]
+# never representable in XML 1.0 (lxml refuses them inside a text) - only put into documents, rarely
+CTRL = [u"\x00", u"\x01", u"\x08", u"\x0b", u"\x0c", u"\x0e", u"\x1c", u"\x1f", u"\ufffe", u"\uffff"]
+SURROGATES = [u"\ud800", u"\udfff", u"\udc80"]
 POOL = [u"a", u"b", u"a,b", u'x"', u'"x', u'a"b', u"[a]", u"[]", u"[", u"]", u"", u" ", u" a ",
         u"a\nb", u"a\r\nb", u"a\rb", u"<&>", u"\xe9中", u"None", u"(1;2)", u"a;b", u"\xa0a",
         u"a, b", u'""', u'"', u"[a,b]", u"1", u"True", u"x y", u"\ta\t", u"a]", u"[a",
         # line boundaries of str.splitlines() that are no line ends for csv / XML 1.0
         u"a\u2028b", u"a\x85b", u"a\u2029b,c"]
+# round 3: format / template / replacement metacharacters, XML look-alikes, words of other encodings
+POOL2 = [u"%", u"%%", u"%s", u"100%", u"in % of max", u"%(a)s", u"%d%%", u"50 %, 60 %", u"{0}", u"{}",
+         u"{a", u"${x}", u"$1", u"\\1", u"\\g<0>", u"\\n", u"\\", u"a\\,b", u"&amp;", u"&#10;", u"&#xE9;",
+         u"&lt;", u"]]>", u"<![CDATA[x]]>", u"<!-- c -->", u"<?pi?>", u'<odML version="1.1">',
+         u"</value>", u"<value>a</value>", u'<?xml version="1.0" encoding="ISO-8859-1"?>',
+         u"a%20b", u"file:///x#y", u"J\xfcrgen M\xfcller", u"\xb5V", u"\u20ac 5", u"Zo\xeb, na\xefve",
+         u"\u0153uvre", u"\U0001F600", u"e\u0301", u"\u200bz\u200b", u"\u3000w\u3000", u"\x85n\x85",
+         u"\ufeffb", u"a\x80\x9fb", u"\xc3\xa9", u"\xff\xfe"]
+# white space of str.strip that XML 1.0 cannot carry: value encoding only (csv stream)
+POOL_CSV = [u"\x1cf\x1f", u"\x0bv\x0c", u"\x1d", u"a\x0bb", u"\x1e,\x0c"]
 REPOS = [None, None, None, u"file:///nonexistent/terms.xml"]
 TEMPLATE = u'<xsl:template match="odML"><b>custom</b></xsl:template>'
+# custom templates (round 3): the template text itself is arbitrary XSL, it may hold the same
+# metacharacters as the document
+TEMPLATES = [TEMPLATE,
+             u'<xsl:template match="odML"><p>100% {$x} %s %(a)s \\1 \\g&lt;0&gt; $1</p></xsl:template>',
+             u'<xsl:template match="odML"><html><body>d\xe9j\xe0 中 \u20ac</body></html></xsl:template>',
+             u'<xsl:template match="odML"><xsl:value-of select="author"/>%%<section/><odML version="1.1">x</odML></xsl:template>']
+
+
+def atom(rng):
+    return rng.choice(ATOMS) if rng.random() < 0.8 else rng.choice(ATOMS2)
 
 
 def gen_text(rng, allow_empty=True):
     r = rng.random()
-    if r < 0.45:
+    if r < 0.36:
         t = rng.choice(POOL)
+    elif r < 0.48:
+        t = rng.choice(POOL2)
     else:
-        t = u"".join(rng.choice(ATOMS) for _ in range(rng.randrange(0, 7)))
+        t = u"".join(atom(rng) for _ in range(rng.randrange(0, 7)))
     if not allow_empty and not t.strip():
         t = u"w" + t
     return t
@@ -90,7 +134,10 @@ def gen_values(rng, kind, n):
             out.append({"b": rng.random() < 0.5})
         elif kind == "float":
             f = rng.choice([0.5, -1.25, 1e22, 0.1 + 0.2, 3.0, 1e-7, float("inf"),
-                            rng.uniform(-1000, 1000), rng.random()])
+                            rng.uniform(-1000, 1000), rng.random(),
+                            # boundary floats (round 3); compared by their text, so nan is fine
+                            -0.0, float("-inf"), float("nan"), 1.7976931348623157e308, 5e-324,
+                            1e16, 123456789012345678.0, 1e-5, 100.0])
             out.append({"k": str(f), "py": "float"})
         elif kind == "date":
             d = datetime.date(rng.choice([5, 999, 1000, 1999, 2024, 9999]), rng.randrange(1, 13),
@@ -100,7 +147,7 @@ def gen_values(rng, kind, n):
             out.append({"k": str(datetime.time(rng.randrange(24), rng.randrange(60), rng.randrange(60))),
                         "py": "time"})
         elif kind == "datetime":
-            d = datetime.datetime(rng.choice([1000, 1999, 2024, 9999]), rng.randrange(1, 13),
+            d = datetime.datetime(rng.choice([5, 999, 1000, 1999, 2024, 9999]), rng.randrange(1, 13),
                                   rng.randrange(1, 29), rng.randrange(24), rng.randrange(60),
                                   rng.randrange(60))
             out.append({"k": str(d), "py": "datetime"})
@@ -119,6 +166,8 @@ def gen_prop(rng, name):
     kind = rng.choice(["string", "string", "text", "url", "person", "int", "float", "boolean",
                        "date", "time", "datetime", "tuple", "tuple", "none"])
     n = rng.choice([0, 1, 1, 1, 2, 2, 3, 4])
+    if rng.random() < 0.04:
+        n = rng.choice([9, 10, 11, 12, 30])      # more values than one digit counts
     p = {"id": gen_id(rng), "name": name, "unit": opt_text(rng), "definition": opt_text(rng),
          "dependency": None, "dependency_value": opt_text(rng),
          "reference": opt_text(rng), "value_origin": opt_text(rng), "val_card": gen_card(rng)}
@@ -146,9 +195,13 @@ def gen_prop(rng, name):
 
 
 def gen_names(rng, n):
-    base = [u"a", u"b", u"ab", u"c", u"\xe9", u"a,b", u"a b", u"<n>", u"N", u"x\ny"]
+    base = [u"a", u"b", u"ab", u"c", u"\xe9", u"a,b", u"a b", u"<n>", u"N", u"x\ny",
+            # round 3: names with format / path / template metacharacters, names that only differ
+            # in case or in a multi-digit number, words of other encodings
+            u"50%", u"%s", u"{x}", u"a/b", u"n", u"n2", u"n10", u"\\1", u"Messger\xe4t", u"\u20ac",
+            u"a%20b", u"$a", u"#", u"..", u"a:b"]
     rng.shuffle(base)
-    names = base[:n]
+    names = base[:n] + [u"k%d" % i for i in range(n - len(base))]
     r = rng.random()
     if n and r < 0.04:
         names[0] = u" " + names[0] + u"\t"        # trimmed on load
@@ -156,10 +209,12 @@ def gen_names(rng, n):
         names[1] = names[0] + u" "                # clash after trimming (known finding)
     if n and 0.04 <= r < 0.05:
         names[0] = u" "                           # blank name (known finding)
+    if n and 0.05 <= r < 0.11:
+        names[rng.randrange(n)] = None            # unnamed: the object is named by its id
     return names
 
 
-def gen_sec(rng, name, depth):
+def gen_sec(rng, name, depth, maxdepth=3):
     s = {"id": gen_id(rng), "name": name, "type": gen_text(rng, allow_empty=False),
          "definition": opt_text(rng), "reference": opt_text(rng), "link": opt_text(rng, 0.1),
          "repository": rng.choice(REPOS), "include": None,
@@ -167,18 +222,136 @@ def gen_sec(rng, name, depth):
     if s["link"] is None and rng.random() < 0.1:
         s["include"] = gen_text(rng)
     np_ = rng.choice([0, 1, 1, 2, 3])
+    if rng.random() < 0.03:
+        np_ = rng.choice([10, 11, 12, 13])        # a 10th, 11th ... child
     s["props"] = [gen_prop(rng, nm) for nm in gen_names(rng, np_)]
-    ns = 0 if depth >= 3 else rng.choice([0, 0, 1, 1, 2])
-    s["secs"] = [gen_sec(rng, nm, depth + 1) for nm in gen_names(rng, ns)]
+    ns = 0 if depth >= maxdepth else rng.choice([0, 0, 1, 1, 2])
+    if depth < maxdepth and rng.random() < 0.02:
+        ns = rng.choice([10, 11, 12])
+        s["secs"] = [gen_sec(rng, nm, maxdepth, maxdepth) for nm in gen_names(rng, ns)]
+    else:
+        s["secs"] = [gen_sec(rng, nm, depth + 1, maxdepth) for nm in gen_names(rng, ns)]
     return s
 
 
-def gen_doc(rng):
+def depth_of(d):
+    """nesting depth of the Sections of a document spec / snapshot"""
+    def rec(secs):
+        return 0 if not secs else 1 + max(rec(s["secs"]) for s in secs)
+    return rec(d["secs"])
+
+
+def xml_depth(mem):
+    """depth of the element tree the writer makes of a document (root = 1)"""
+    def rec(s):
+        return 1 + max([1, 2 if s["props"] else 1] + [rec(c) for c in s["secs"]])
+    return 1 + max([1] + [rec(s) for s in mem["secs"]])
+
+
+def sec_paths(secs, prefix=u""):
+    """(absolute path, spec) of every named Section of a document spec"""
+    out = []
+    for s in secs:
+        if s["name"] is None:
+            continue
+        path = prefix + u"/" + s["name"]
+        out.append((path, s))
+        out += sec_paths(s["secs"], path)
+    return out
+
+
+def finalize_safe(spec):
+    """Document.finalize() (the RDF writer calls it too) does not come to an end, or only at the
+    recursion limit, when a link leads to an ancestor of the linking Section or links form a cycle
+    (the business of C12). Conservative test for 'nothing of the kind here': no include, at most
+    one link, and its last path step names neither the linking Section nor one of its ancestors."""
+    linked = []
+
+    def rec(secs, above):
+        for sec in secs:
+            if sec.get("include"):
+                linked.append(None)
+            if sec.get("link") is not None:
+                step = sec["link"].strip().rstrip(u"/").rsplit(u"/", 1)[-1]
+                ok = step and u".." not in sec["link"] and step not in above + [sec["name"]]
+                linked.append(sec if ok else None)
+            rec(sec["secs"], above + [sec["name"]])
+    rec(spec["secs"], [])
+    return len(linked) <= 1 and None not in linked
+
+
+def text_slots(d):
+    """(dict, key) of every free text of a document spec"""
+    out = [(d, k) for k in ("author", "version")]
+    for s in walk_secs(d["secs"]):
+        out += [(s, k) for k in ("name", "type", "definition", "reference")]
+        for p in s["props"]:
+            out += [(p, k) for k in ("name", "unit", "definition", "reference", "value_origin",
+                                     "dependency_value")]
+            out += [(v, "s") for v in p["values"] if "s" in v]
+    return out
+
+
+CHAIN_DEPTHS = [60, 200, 252, 253, 254, 255, 260]
+
+
+def gen_chain(rng, depth):
+    """`any tree shape`: a chain of Sections nested `depth` levels deep"""
+    cur = None
+    for i in range(depth):
+        sec = {"id": gen_id(rng), "name": u"c", "type": u"t", "definition": None, "reference": None,
+               "link": None, "repository": None, "include": None, "sec_card": None, "prop_card": None,
+               "props": [], "secs": [] if cur is None else [cur]}
+        if cur is None:
+            sec["props"] = [gen_prop(rng, u"p")]
+        cur = sec
+    return cur
+
+
+def gen_doc(rng, wild=True, tame=False, chain=False):
+    """tame: a document the XML form can express (for the streams that are about something else);
+    chain: now and then a very deep chain of Sections instead of a bushy tree"""
+    if chain and rng.random() < 0.012:
+        depth = rng.choice(CHAIN_DEPTHS)
+        return {"id": gen_id(rng), "author": opt_text(rng), "version": None, "repository": None, "date": None,
+                "secs": [gen_chain(rng, depth)], "chain": depth}
+    if tame:
+        for _ in range(8):
+            d = gen_doc(rng, wild=False)
+            if not shape_flags(d) & {"blank_name", "names_clash_after_trim", "tuple_item_separator"}:
+                break
+        return d
     d = {"id": gen_id(rng), "author": opt_text(rng), "version": opt_text(rng),
          "repository": rng.choice(REPOS),
          "date": str(datetime.date(rng.choice([5, 1999, 2024]), rng.randrange(1, 13), rng.randrange(1, 29)))
          if rng.random() < 0.4 else None}
-    d["secs"] = [gen_sec(rng, nm, 1) for nm in gen_names(rng, rng.choice([0, 1, 1, 2, 3]))]
+    maxdepth = rng.choice([4, 5, 6, 7]) if rng.random() < 0.06 else 3
+    d["secs"] = [gen_sec(rng, nm, 1, maxdepth) for nm in gen_names(rng, rng.choice([0, 1, 1, 2, 3]))]
+    # round 3: links that name an existing Section (stored by the constructor, not followed),
+    # absolute and relative; includes that look like real ones
+    paths = sec_paths(d["secs"])
+    if paths and rng.random() < 0.3:
+        for _ in range(rng.choice([1, 1, 2])):
+            _path, sec = rng.choice(paths)
+            target, _t = rng.choice(paths)
+            sec["include"] = None
+            sec["link"] = rng.choice([target, target, u"../" + target.rsplit(u"/", 1)[-1],
+                                      target.rsplit(u"/", 1)[-1], target + u"/"])
+    elif paths and rng.random() < 0.05:
+        _path, sec = rng.choice(paths)
+        sec["link"] = None
+        sec["include"] = rng.choice([u"file:///nonexistent/doc.xml#/a", u"doc.xml#a", u"#" + paths[0][0]])
+    # round 3: a character XML 1.0 cannot carry somewhere in the document (the writer has to
+    # refuse, every entry point alike, and leave the target file alone)
+    if wild and rng.random() < 0.05:
+        slots = [(o, k) for o, k in text_slots(d) if o.get(k)]
+        if slots:
+            o, k = rng.choice(slots)
+            ch = rng.choice(CTRL + CTRL + SURROGATES)
+            pos = rng.choice([0, len(o[k]) // 2, len(o[k]) // 2, len(o[k])])
+            o[k] = o[k][:pos] + ch + o[k][pos:]
+            if ch in SURROGATES:
+                d["surrogate"] = True           # not expressible in a Lean String: oracle only
     return d
 
 
@@ -206,29 +379,106 @@ def tup(c):
     return None if c is None else tuple(c)
 
 
-def build_doc(spec):
+def build_doc(spec, route="ctor", finalize=False):
+    """the document of a spec, built along one of several routes of the public API (round 3:
+    'every document buildable through the public API' - not only by constructors):
+      ctor     constructors with parent=
+      setters  create_section / create_property, then one attribute setter after the other
+      churn    constructors, then a history that ends where it began: children moved away and
+               back (reorder), removed and inserted again, renamed and renamed back, values
+               assigned twice
+    finalize=True: Document.finalize() afterwards (resolvable links are followed and merged; a
+    link that does not resolve raises and is left as it is)."""
     import odml
     doc = odml.Document(author=spec.get("author"), date=spec.get("date"), version=spec.get("version"),
-                        repository=spec.get("repository"), oid=spec["id"])
+                        repository=spec.get("repository"), oid=spec["id"]) if route != "setters" \
+        else odml.Document(oid=spec["id"], repository=spec.get("repository"))
+    if route == "setters":
+        # (not the repository setter: it starts a background thread that fetches the URL - C18)
+        doc.date = spec.get("date")
+        doc.version = spec.get("version")
+        doc.author = spec.get("author")
+
+    def mk_prop(p, sec):
+        unc = p.get("uncertainty")
+        return odml.Property(name=p["name"], values=[py_value(v) for v in p["values"]] or None,
+                             parent=sec, unit=p.get("unit"), uncertainty=None if unc is None else unc["py"],
+                             reference=p.get("reference"), definition=p.get("definition"),
+                             dependency=p.get("dependency"), dependency_value=p.get("dependency_value"),
+                             dtype=p.get("dtype"), value_origin=p.get("value_origin"), oid=p["id"],
+                             val_cardinality=tup(p.get("val_card")))
+
+    def set_prop(p, sec):
+        unc = p.get("uncertainty")
+        if unc is not None and not unc["num"]:
+            return mk_prop(p, sec)        # the setter only takes numbers; texts go through the constructor
+        prop = sec.create_property(p["name"], values=[py_value(v) for v in p["values"]] or None,
+                                   dtype=p.get("dtype"), oid=p["id"])
+        prop.val_cardinality = tup(p.get("val_card"))
+        prop.value_origin = p.get("value_origin")
+        prop.dependency_value = p.get("dependency_value")
+        prop.dependency = p.get("dependency")
+        prop.definition = p.get("definition")
+        prop.reference = p.get("reference")
+        if unc is not None:
+            prop.uncertainty = unc["py"]
+        prop.unit = p.get("unit")
+        return prop
 
     def add_sec(s, parent):
+        if route == "setters":
+            sec = parent.create_section(name=s["name"], type=s["type"], oid=s["id"], link=s.get("link"),
+                                        include=s.get("include"), repository=s.get("repository"))
+            sec.reference = s.get("reference")
+            sec.definition = s.get("definition")
+            for c in s["secs"]:
+                add_sec(c, sec)
+            for p in s["props"]:
+                set_prop(p, sec)
+            sec.prop_cardinality = tup(s.get("prop_card"))
+            sec.sec_cardinality = tup(s.get("sec_card"))
+            return sec
         sec = odml.Section(name=s["name"], type=s["type"], parent=parent, definition=s.get("definition"),
                            reference=s.get("reference"), repository=s.get("repository"),
                            link=s.get("link"), include=s.get("include"), oid=s["id"],
                            sec_cardinality=tup(s.get("sec_card")), prop_cardinality=tup(s.get("prop_card")))
         for p in s["props"]:
-            unc = p.get("uncertainty")
-            odml.Property(name=p["name"], values=[py_value(v) for v in p["values"]] or None,
-                          parent=sec, unit=p.get("unit"), uncertainty=None if unc is None else unc["py"],
-                          reference=p.get("reference"), definition=p.get("definition"),
-                          dependency=p.get("dependency"), dependency_value=p.get("dependency_value"),
-                          dtype=p.get("dtype"), value_origin=p.get("value_origin"), oid=p["id"],
-                          val_cardinality=tup(p.get("val_card")))
+            mk_prop(p, sec)
         for c in s["secs"]:
             add_sec(c, sec)
+        return sec
 
     for s in spec["secs"]:
         add_sec(s, doc)
+
+    if route == "churn":
+        def churn(parent):
+            for kids in (list(parent.sections), list(getattr(parent, "properties", []))):
+                if kids:
+                    last = kids[-1]
+                    old = last.reorder(0)
+                    last.reorder(old)
+                    first = kids[0]
+                    parent.remove(first)
+                    parent.insert(0, first)
+                    name = first.name
+                    if name != first.id:
+                        first.name = u"renamed-in-between"
+                        first.name = name
+            for prop in getattr(parent, "properties", []):
+                vals = list(prop.values)
+                if vals:
+                    prop.values = vals[:1]
+                    prop.values = vals
+            for sec in parent.sections:
+                churn(sec)
+        churn(doc)
+
+    if finalize:
+        try:
+            doc.finalize()
+        except Exception:
+            pass
     return doc
 
 
@@ -339,6 +589,19 @@ def trim_doc(d):
     return q
 
 
+def unname(x):
+    """the snapshot convention `name None: the object is named by its id` applied to a document of
+    the model (which holds the id text as the name)"""
+    if isinstance(x, list):
+        return [unname(v) for v in x]
+    if isinstance(x, dict):
+        out = dict((k, unname(v)) for k, v in x.items())
+        if "name" in out and "id" in out and out["name"] is not None and out["name"] == out["id"]:
+            out["name"] = None
+        return out
+    return x
+
+
 def diff(a, b, path=""):
     """paths at which two snapshots differ"""
     if isinstance(a, dict) and isinstance(b, dict) and set(a) == set(b):
@@ -375,7 +638,8 @@ def tree_of(el, prune_foreign=False, vocab=None, root=True):
 def parse_text(text):
     from lxml import etree
     data = text.encode("utf-8") if isinstance(text, str) else text
-    return etree.fromstring(data, etree.XMLParser(remove_comments=True))
+    # (huge_tree: the harness' own look at what was written is not bound by libxml2's depth limit)
+    return etree.fromstring(data, etree.XMLParser(remove_comments=True, huge_tree=True))
 
 
 def vocabulary():
@@ -403,18 +667,20 @@ def exc_cat(exc):
     return "leak:" + fw.exc_name(exc)
 
 
-def load_with(reader, text, path):
-    """reader entry points; -> {"doc","warns"} or {"raised"}"""
+def load_with(reader, text, path, data=None):
+    """reader entry points; -> {"doc","warns"} or {"raised"}.
+    text: decoded XML text, path: file, data: the encoded bytes (default: text as UTF-8)."""
     import odml
     from odml.tools.xmlparser import XMLReader
     from odml.tools.odmlparser import ODMLReader
+    lenient = reader.startswith("lenient")
     try:
         if reader in ("strict_string", "lenient_string"):
-            r = XMLReader(ignore_errors=reader.startswith("lenient"), show_warnings=False)
+            r = XMLReader(ignore_errors=lenient, show_warnings=False)
             d = r.from_string(text)
             return {"doc": snap_doc(d), "warns": len(r.warnings)}
         if reader in ("strict_file", "lenient_file"):
-            r = XMLReader(ignore_errors=reader.startswith("lenient"), show_warnings=False)
+            r = XMLReader(ignore_errors=lenient, show_warnings=False)
             d = r.from_file(path)
             return {"doc": snap_doc(d), "warns": len(r.warnings)}
         if reader == "odmlreader_string":
@@ -427,6 +693,35 @@ def load_with(reader, text, path):
         if reader == "odml_load":
             d = odml.load(path, "xml", show_warnings=False)
             return {"doc": snap_doc(d), "warns": None}
+        # ---- round 3: the other shapes of the same entry points
+        if reader in ("strict_bytes", "lenient_bytes"):           # from_string(bytes)
+            r = XMLReader(ignore_errors=lenient, show_warnings=False)
+            d = r.from_string(text.encode("utf-8") if data is None else data)
+            return {"doc": snap_doc(d), "warns": len(r.warnings)}
+        if reader in ("strict_stringio", "lenient_stringio"):     # from_file(text stream in memory)
+            r = XMLReader(ignore_errors=lenient, show_warnings=False)
+            d = r.from_file(io.StringIO(text))
+            return {"doc": snap_doc(d), "warns": len(r.warnings)}
+        if reader in ("strict_bytesio", "lenient_bytesio"):       # from_file(byte stream in memory)
+            r = XMLReader(ignore_errors=lenient, show_warnings=False)
+            d = r.from_file(io.BytesIO(text.encode("utf-8") if data is None else data))
+            return {"doc": snap_doc(d), "warns": len(r.warnings)}
+        if reader in ("strict_fileobj", "lenient_fileobj"):       # from_file(open(path, "rb"))
+            r = XMLReader(ignore_errors=lenient, show_warnings=False)
+            with io.open(path, "rb") as fh:
+                d = r.from_file(fh)
+            return {"doc": snap_doc(d), "warns": len(r.warnings)}
+        if reader == "odmlreader_lower_file":                     # parser name in another case
+            r = ODMLReader("xml", show_warnings=False)
+            d = r.from_file(path)
+            return {"doc": snap_doc(d), "warns": len(r.warnings)}
+        if reader == "odml_load_default":                         # backend left to its default
+            d = odml.load(path, show_warnings=False)
+            return {"doc": snap_doc(d), "warns": None}
+        if reader == "xmlparser_load":                            # module level shortcut
+            import odml.tools.xmlparser as xp
+            d = xp.load(path)
+            return {"doc": snap_doc(d), "warns": None}
     except Exception as exc:
         return {"raised": exc_cat(exc)}
     raise ValueError(reader)
@@ -434,40 +729,169 @@ def load_with(reader, text, path):
 
 READERS = ["strict_string", "lenient_string", "strict_file", "lenient_file", "odmlreader_string",
            "odmlreader_file", "odml_load"]
-STRICT = {"strict_string", "strict_file", "odmlreader_string"}
-WRITERS = ["xmlwriter_str", "odmlwriter_to_string", "write_file", "write_file_local_style",
-           "write_file_custom_template", "odml_save"]
-STYLED = {"write_file_local_style", "write_file_custom_template"}
+# round 3: byte strings, in-memory streams, open files, defaults
+READERS_MORE = ["strict_bytes", "lenient_bytes", "strict_stringio", "lenient_stringio", "strict_bytesio",
+                "lenient_bytesio", "strict_fileobj", "lenient_fileobj", "odmlreader_lower_file",
+                "odml_load_default", "xmlparser_load"]
+STRICT = {"strict_string", "strict_file", "odmlreader_string", "strict_bytes", "strict_stringio",
+          "strict_bytesio", "strict_fileobj", "xmlparser_load"}
+PATH_READERS = {"strict_file", "lenient_file", "odmlreader_file", "odml_load", "strict_fileobj",
+                "lenient_fileobj", "odmlreader_lower_file", "odml_load_default", "xmlparser_load"}
 
 
-def write_with(writer, doc, tmp):
+def squeeze(d):
+    """equal results of several entry points are stored once (`{"same": key}` refers to the first):
+    the observations of a thorough run would otherwise take several GB"""
+    seen = {}
+    for k in sorted(d):
+        c = fw.canon(d[k])
+        if c in seen:
+            d[k] = {"same": seen[c]}
+        else:
+            seen[c] = k
+    return d
+
+
+def unsqueeze(obs):
+    """-> the observation with every `same` reference resolved (shared objects, no copies)"""
+    if not isinstance(obs, dict) or not any(k in obs for k in ("writes", "loads", "styled")):
+        return obs
+    out = dict(obs)
+    for part in ("writes", "loads", "styled"):
+        d = obs.get(part)
+        if isinstance(d, dict):
+            out[part] = dict((k, d[v["same"]] if isinstance(v, dict) and "same" in v else v)
+                             for k, v in d.items())
+    return out
+
+
+def reader_of(key):
+    """'reader' or 'reader@source' -> reader"""
+    return key.split("@")[0]
+
+
+PLAIN_WRITERS = ["xmlwriter_str", "odmlwriter_to_string", "write_file", "odml_save",
+                 # round 3
+                 "odmlwriter_write_file", "odml_save_default", "odmlwriter_lower_to_string"]
+STYLED_WRITERS = ["write_file_local_style", "write_file_custom_template",
+                  # round 3: every option through every file entry point, and both options at once
+                  "xmlwriter_local_style", "odmlwriter_custom_template", "odml_save_local_style",
+                  "odml_save_custom_template", "xmlwriter_both", "odml_save_both"]
+WRITERS = PLAIN_WRITERS + STYLED_WRITERS
+STYLED = set(STYLED_WRITERS)
+LEGACY_STYLED = STYLED_WRITERS[:2]
+# file names (round 3): blanks, non-ASCII, URL metacharacters, several dots, another extension
+FILE_NAMES = [u"%s.xml", u"a b %s.xml", u"d\xe9j\xe0 %s.xml", u"50%% %s.xml", u"a%%20b%s.xml", u"a#%s.xml",
+              u"%s.v1.1.odml", u"\u4e2d%s.xml", u"%s&x=1.xml", u"%s.XML"]
+SENTINEL = u"<!-- an older file -->\n" + u"x" * 70000
+
+
+def write_with(writer, doc, tmp, name_pat=u"%s.xml", template=TEMPLATE, precreate=False):
+    """-> {"text"[, "path"]} or {"raised", "file"}: "file" says what is at the path after a refused
+    save: "absent", "untouched" (the older file is still there) or "altered" """
     import odml
     from odml.tools.xmlparser import XMLWriter
     from odml.tools.odmlparser import ODMLWriter
-    path = os.path.join(tmp, writer + ".xml")
+    path = os.path.join(tmp, name_pat % writer)
+    is_file = writer not in ("xmlwriter_str", "odmlwriter_to_string", "odmlwriter_lower_to_string")
+    if is_file and precreate:
+        with io.open(path, "w", encoding="utf-8") as fh:
+            fh.write(SENTINEL)
     try:
         if writer == "xmlwriter_str":
             return {"text": str(XMLWriter(doc))}
         if writer == "odmlwriter_to_string":
             return {"text": ODMLWriter("XML").to_string(doc)}
+        if writer == "odmlwriter_lower_to_string":
+            return {"text": ODMLWriter("xml").to_string(doc)}
         if writer == "write_file":
             XMLWriter(doc).write_file(path)
+        elif writer == "odmlwriter_write_file":
+            ODMLWriter("XML").write_file(doc, path)
         elif writer == "write_file_local_style":
             ODMLWriter("XML").write_file(doc, path, local_style=True)
         elif writer == "write_file_custom_template":
-            XMLWriter(doc).write_file(path, custom_template=TEMPLATE)
+            XMLWriter(doc).write_file(path, custom_template=template)
+        elif writer == "xmlwriter_local_style":
+            XMLWriter(doc).write_file(path, local_style=True)
+        elif writer == "odmlwriter_custom_template":
+            ODMLWriter("XML").write_file(doc, path, custom_template=template)
+        elif writer == "odml_save_local_style":
+            odml.save(doc, path, local_style=True)
+        elif writer == "odml_save_custom_template":
+            odml.save(doc, path, "XML", custom_template=template)
+        elif writer == "xmlwriter_both":
+            XMLWriter(doc).write_file(path, local_style=True, custom_template=template)
+        elif writer == "odml_save_both":
+            odml.save(doc, path, "xml", local_style=True, custom_template=template)
         elif writer == "odml_save":
             odml.save(doc, path, "xml")
+        elif writer == "odml_save_default":
+            odml.save(doc, path)
+        else:
+            raise ValueError(writer)
         with io.open(path, "rb") as fh:
-            return {"text": fh.read().decode("utf-8"), "path": path}
+            raw = fh.read()
+        return {"text": raw.decode("utf-8"), "path": path}
     except Exception as exc:
-        return {"raised": fw.exc_name(exc)}
+        out = {"raised": fw.exc_name(exc)}
+        if is_file:
+            if not os.path.exists(path):
+                out["file"] = "absent"
+            else:
+                with io.open(path, "rb") as fh:
+                    raw = fh.read()
+                out["file"] = "untouched" if precreate and raw == SENTINEL.encode("utf-8") else "altered"
+        return out
+
+
+def xml_plain_char(c):
+    """certainly a character XML 1.0 can carry (the Char production without the discouraged ranges
+    is not needed: lxml takes all of Char)"""
+    n = ord(c)
+    return c in u"\t\n\r" or 0x20 <= n <= 0xD7FF or 0xE000 <= n <= 0xFFFD or n >= 0x10000
+
+
+def must_write(mem):
+    """The property's 'a document that cannot be represented makes the writer raise', read from the
+    other side and weakly: a valid document without any of the shapes the XML form cannot express
+    (blank name, names equal after trimming, a separator inside an n-tuple item, a character outside
+    XML 1.0) has to be written. Everything else: no claim (the writer may write or refuse; what it
+    writes has to load to the document)."""
+    if shape_flags(mem) & {"blank_name", "names_clash_after_trim", "tuple_item_separator"}:
+        return False
+    return _all_plain(mem)
+
+
+def _all_plain(x):
+    todo = [x]                      # (iterative: documents can be nested hundreds of levels deep)
+    while todo:
+        y = todo.pop()
+        if isinstance(y, str):
+            if not all(xml_plain_char(c) for c in y):
+                return False
+        elif isinstance(y, dict):
+            todo.extend(y.values())
+        elif isinstance(y, (list, tuple)):
+            todo.extend(y)
+    return True
 
 
 def strip_foreign(tree, vocab):
     """-> (tree without the first-level children outside the vocabulary, their number)"""
     keep = [k for k in tree["kids"] if k["tag"] in vocab]
     return dict(tree, kids=keep), len(tree["kids"]) - len(keep)
+
+
+RUNAWAY_DEPTH = 40      # deeper than anything the generator nests on purpose, except the chains
+
+
+def runaway(mem, spec):
+    """Document.finalize() (also inside the RDF writer) on a link to an ancestor of the linking
+    Section nests copies until RecursionError and leaves a document some 250 levels deep, the exact
+    depth depending on the stack at that moment. That is the business of the link properties
+    (C12); such accidents are not used here. Deep nesting as such is generated on purpose (chains)."""
+    return depth_of(mem) > RUNAWAY_DEPTH and not spec.get("chain")
 
 
 # ----------------------------------------------------------------------------- known-finding shapes
@@ -553,7 +977,8 @@ def shape_flags(mem):
 
 
 # ----------------------------------------------------------------------------- foreign mutations
-BENIGN = ["shuffle_leaves", "pad_text", "upper_tags", "comment"]
+BENIGN = ["shuffle_leaves", "pad_text", "upper_tags", "comment",
+          "comment_in_leaf"]    # round 3: a comment in the middle of a text (the parser joins the parts)
 DAMAGE = ["unknown_tag", "drop_element", "dup_leaf", "attribute", "version", "bad_id", "root_tag",
           "no_version", "bad_dtype", "bool_text", "bad_card", "empty_leaf", "nested_in_leaf"]
 
@@ -564,9 +989,17 @@ def mutate(root, ops, rng):
     cont = ("odml", "section", "property")
     containers = [e for e in elems if e.tag.lower() in cont]
     leaves = [e for e in elems if e.tag.lower() not in cont]
-    for op in ops:
+    for op in sorted(ops, key=lambda o: o == "comment_in_leaf"):      # (stable: that one goes last)
         leaves = [e for e in leaves if e.getparent() is not None]
-        if op == "shuffle_leaves":
+        if op == "comment_in_leaf":
+            for e in leaves:
+                if e.text and len(e.text) >= 2 and not len(e) and rng.random() < 0.3:
+                    cut = rng.randrange(1, len(e.text))
+                    c = etree.Comment(rng.choice([u" note ", u"", u"<name>x</name>", u"\xe9"]))
+                    c.tail = e.text[cut:]
+                    e.text = e.text[:cut]
+                    e.append(c)
+        elif op == "shuffle_leaves":
             for c in containers:
                 kids = list(c)
                 kids = [k for k in kids if isinstance(k.tag, str)]
@@ -635,6 +1068,171 @@ def mutate(root, ops, rng):
             etree.SubElement(rng.choice(leaves), "b").text = u"x"
 
 
+# ----------------------------------------------------------------------------- surface forms (round 3)
+# "XML written to that vocabulary by another tool": the same element tree in the other legal
+# spellings of an XML file - declared encodings, byte order marks, declaration styles, prolog and
+# epilog, line ends, CDATA sections, character references, no white space between elements.
+ENCODINGS = [  # (name in the XML declaration or None, Python codec that produces the bytes)
+    ("UTF-8", "utf-8"), ("utf-8", "utf-8"), ("UTF-8", "utf-8-sig"), (None, "utf-8"), (None, "utf-8-sig"),
+    ("ISO-8859-1", "latin-1"), ("iso-8859-1", "latin-1"), ("windows-1252", "cp1252"),
+    ("ISO-8859-15", "iso8859-15"), ("UTF-16", "utf-16"), (None, "utf-16"), ("UTF-16LE", "utf-16-le"),
+    ("UTF-16BE", "utf-16-be"), ("US-ASCII", "ascii")]
+DECLS = [u'<?xml version="1.0" encoding="%s"?>', u"<?xml version='1.0' encoding='%s'?>",
+         u'<?xml version="1.0" encoding="%s" standalone="yes"?>', u'<?xml version="1.0"  encoding="%s" ?>',
+         u"<?xml version=\"1.0\" encoding=\"%s\" standalone='no'?>"]
+DECLS_NOENC = [u"", u'<?xml version="1.0"?>', u'<?xml version="1.0" standalone="yes"?>']
+BETWEEN = [u"\n", u"", u"\n<!-- written by another tool, d\xe9j\xe0 vu -->\n",
+           u'\n<?xml-stylesheet type="text/xsl" href="odml.xsl"?>\n', u"\n<!DOCTYPE odML>\n",
+           u"\n<!DOCTYPE odML [ <!ELEMENT odML ANY> <!ENTITY tool \"x\"> ]>\n", u"\n\n  \t"]
+AFTER = [u"", u"\n", u"\n<!-- end -->\n", u"\n\n\n  ", u"\n<?end of file?>"]
+EOLS = [u"\n", u"\n", u"\r\n", u"\r"]
+ROOT_STYLES = [u'<odML version="%s">', u"<odML version='%s'>", u'<odML  version = "%s" >', u'<odML\n  version="%s"\n>']
+SURFACE_READERS = ["strict_file", "lenient_file", "odmlreader_file", "odml_load", "strict_fileobj",
+                   "strict_bytes", "lenient_bytes", "strict_bytesio", "strict_string", "lenient_string",
+                   "odmlreader_string", "strict_stringio"]
+# Not among them, on purpose: a text-mode file object (open(path, encoding=...)) - lxml encodes what
+# it reads from it as UTF-8 and then believes the declaration, which is lxml's business; a str that
+# still starts with U+FEFF; encodings libxml2 has no decoder for (UTF-32).
+
+
+def surface_form(body_root, case, rnd):
+    """-> (bytes of the file, decoded text a caller gets who reads and decodes the file himself)"""
+    from lxml import etree
+    declared, codec = ENCODINGS[case["enc"] % len(ENCODINGS)]
+    cont = ("odml", "section", "property")
+    if case.get("minify"):
+        for e in body_root.iter():
+            if isinstance(e.tag, str) and e.tag.lower() in cont:
+                if e.text is not None and not e.text.strip(u" \t\n"):
+                    e.text = None
+            if e.tail is not None and not e.tail.strip(u" \t\n"):
+                e.tail = None
+    if case.get("cdata"):
+        for e in body_root.iter():
+            if not isinstance(e.tag, str) or e.tag.lower() in cont or not e.text or len(e):
+                continue
+            if u"\r" in e.text or u"]]>" in e.text or rnd.random() < 0.5:
+                continue
+            try:
+                e.text.encode(codec)          # a character reference means nothing inside CDATA
+            except UnicodeError:
+                continue
+            e.text = etree.CDATA(e.text)
+    body = etree.tostring(body_root, encoding="unicode")
+    m = re.match(u'<odML version="([^"<>\']*)"\\s*>', body)
+    if m and case.get("root_style"):
+        style = ROOT_STYLES[case["root_style"] % len(ROOT_STYLES)]
+        body = style % m.group(1) + body[m.end():]
+    if declared is None:
+        decl = DECLS_NOENC[case["decl"] % len(DECLS_NOENC)]
+    else:
+        decl = DECLS[case["decl"] % len(DECLS)] % declared
+    between = BETWEEN[case["between"] % len(BETWEEN)]
+    if not decl:
+        between = between.lstrip(u"\n \t")
+    full = decl + between + body + AFTER[case["after"] % len(AFTER)]
+    eol = EOLS[case["eol"] % len(EOLS)]
+    if eol != u"\n":
+        full = full.replace(u"\n", eol)
+    data = full.encode(codec, "xmlcharrefreplace")
+    return data, data.decode(codec)
+
+
+# ----------------------------------------------------------------------------- sessions (round 3)
+# Stateful reuse: one writer / reader object used several times, with an edit in between, after a
+# refused or failed call; documents that were themselves loaded; other features of the library
+# used in between. Oracle only (the model has no objects with a life time).
+SESSION_KINDS = ["writer_reuse", "reader_reuse", "after_failure", "generations", "interleave"]
+EDITS = ["rename_section", "more_values", "author", "drop_property", "new_section", "clear_definition",
+         "shrink", "grow", "cardinality", "retype"]
+BAD_TEXTS = ["truncated", "version", "unknown_tag", "empty", "not_xml", "no_root_close", "attribute"]
+
+
+def apply_edit(doc, edit):
+    """a small change through the public API; an edit that does not apply is skipped"""
+    import odml
+    try:
+        secs = list(doc.itersections())
+        props = list(doc.iterproperties())
+        if edit == "rename_section" and secs:
+            secs[0].name = u"renamed % {0} \xe9"
+        elif edit == "more_values" and props:
+            target = [q for q in props if q.dtype == "string"] or props
+            target[0].values = list(target[0].values) + ([u"added, later", u"100%"]
+                                                         if target[0].dtype == "string" else [])
+        elif edit == "author":
+            doc.author = u"someone else & co"
+        elif edit == "drop_property" and props:
+            props[-1].parent.remove(props[-1])
+        elif edit == "new_section":
+            sec = odml.Section(name=u"added later", type=u"t", parent=doc)
+            odml.Property(name=u"q", values=[1, 2, 3], parent=sec)
+        elif edit == "clear_definition" and secs:
+            secs[0].definition = None
+            secs[0].reference = u"ref"
+        elif edit == "shrink":
+            for sec in list(doc.sections)[1:]:
+                doc.remove(sec)
+            doc.author = None
+        elif edit == "grow":
+            for i in range(12):
+                odml.Section(name=u"g%d" % i, type=u"t", parent=doc, definition=u"x" * 50)
+        elif edit == "cardinality" and props:
+            props[0].val_cardinality = (None, 10)
+        elif edit == "retype" and props:
+            target = [q for q in props if q.dtype == "int"]
+            if target:
+                target[0].dtype = "float"
+    except Exception:
+        pass
+
+
+def make_bad(spec, how):
+    """a copy of the document spec with one shape the XML form cannot express"""
+    import copy
+    d = copy.deepcopy(spec)
+    if not d["secs"]:
+        d["secs"].append({"id": str(uuid.UUID(int=7)), "name": u"s", "type": u"t", "definition": None,
+                          "reference": None, "link": None, "repository": None, "include": None,
+                          "sec_card": None, "prop_card": None, "props": [], "secs": []})
+    sec = d["secs"][0]
+    prop = {"id": str(uuid.UUID(int=8)), "name": u"bad", "unit": None, "definition": None, "dependency": None,
+            "dependency_value": None, "reference": None, "value_origin": None, "val_card": None,
+            "uncertainty": None, "dtype": "string", "values": [{"s": u"v"}]}
+    if how == "tuple_item":
+        prop["dtype"] = "2-tuple"
+        prop["values"] = [{"t": [u"a,b", u"c"]}]
+    elif how == "control_char":
+        prop["definition"] = u"a\x01b"
+    elif how == "control_value":
+        prop["values"] = [{"s": u"a\x00b"}]
+    elif how == "blank_name":
+        prop["name"] = u" \t"
+    elif how == "surrogate":
+        prop["unit"] = u"\ud800"
+    sec["props"] = [q for q in sec["props"] if q["name"] != u"bad"] + [prop]
+    if how == "name_clash":
+        twin = dict(prop, id=str(uuid.UUID(int=9)), name=u"bad ")
+        sec["props"].append(twin)
+    return d
+
+
+def bad_text(text, how):
+    if how == "truncated":
+        return text[:max(1, len(text) // 2)]
+    if how == "version":
+        return text.replace(u'version="', u'version="0', 1)
+    if how == "unknown_tag":
+        return text.replace(u"</odML>", u"<bogus>x</bogus></odML>")
+    if how == "empty":
+        return u""
+    if how == "not_xml":
+        return u"{\"Document\": {}}"
+    if how == "no_root_close":
+        return text.replace(u"</odML>", u"")
+    return text.replace(u"<odML ", u'<odML foo="1" ', 1)
+
+
 # ----------------------------------------------------------------------------- the check
 class C01(fw.Check):
     prop = "C01"
@@ -664,8 +1262,17 @@ class C01(fw.Check):
             "documents (depth <= 3, every dtype incl. 1..3-tuples, 0..4 values, every optional "
             "attribute, four cardinality shapes) x 6 writer entry points x 7 reader entry points; "
             "foreign: the written text re-ordered/padded/re-cased (benign) or damaged by 1-2 of 13 "
-            "edits. Non-trivial: a csv case with a special character, a doc case with at least one "
-            "Property with values, a foreign case that loads; distinct = distinct canonical JSON.")
+            "edits. Round 3: second alphabet (% { } $ backslash # / and other format, template, URL "
+            "metacharacters, Latin-1/cp1252/Latin-9 letters, astral, combining, zero width, BOM, C1, "
+            "non-ASCII white space; rarely a character XML cannot carry or a lone surrogate); documents "
+            "built by constructors / setters / with an edit history / finalized links, unnamed objects, "
+            "10+ siblings and values, depth up to 7, resolvable links; 7 plain + 8 styled writer entry "
+            "points x 4 templates x 10 file name shapes x an older file in the way; 18 reader entry "
+            "points; surface: 14 encodings x declaration / prolog / epilog / line end / CDATA / root tag "
+            "styles x 12 reader entry points; session: 5 kinds of object reuse; proc: 6 environments. "
+            "Non-trivial: a csv case with a special character, a doc case with at least one "
+            "Property with values, a foreign / surface case that loads, a session with at least one "
+            "load, a proc case that answered; distinct = distinct canonical JSON.")
 
     # -- generation ----------------------------------------------------------
     def generate(self, tier, rng):
@@ -680,21 +1287,89 @@ class C01(fw.Check):
             cases.append({"stream": "csvlib", "text": text})
         n_csv = 40000 if big else 5000
         for i in range(n_csv):
-            vals = [gen_text(rng) for _ in range(rng.choice([0, 1, 1, 1, 2, 2, 3, 4]))]
+            vals = [gen_text(rng) if rng.random() < 0.97 else rng.choice(POOL_CSV)
+                    for _ in range(rng.choice([0, 1, 1, 1, 2, 2, 3, 4, 4, 11]))]
             cases.append({"stream": "csv", "vals": vals})
             cases.append({"stream": "csv", "text": gen_text(rng) if rng.random() < 0.5 else
                           u"[" + u"".join(rng.choice(ATOMS[:14]) for _ in range(rng.randrange(0, 8))) + u"]"})
-        n_doc = 12000 if big else 900
+        n_doc = 12000 if big else 1000
         for i in range(n_doc):
-            cases.append({"stream": "doc", "doc": gen_doc(rng), "styled": rng.random() < 0.3})
-        n_for = 15000 if big else 1100
+            cases.append(self.gen_doc_case(rng))
+        n_for = 15000 if big else 1000
         for i in range(n_for):
             benign = rng.random() < 0.4
             ops = rng.sample(BENIGN, rng.randrange(1, 4)) if benign else \
                 rng.sample(BENIGN, rng.randrange(0, 2)) + rng.sample(DAMAGE, rng.randrange(1, 3))
-            cases.append({"stream": "foreign", "doc": gen_doc(rng), "ops": ops, "benign": benign,
+            cases.append({"stream": "foreign", "doc": gen_doc(rng, wild=False), "ops": ops, "benign": benign,
                           "mseed": rng.randrange(1 << 30)})
+        # round 3 ---------------------------------------------------------------------------------
+        n_surf = 8000 if big else 700
+        for i in range(n_surf):
+            cases.append({"stream": "surface", "doc": gen_doc(rng, tame=True),
+                          "ops": rng.sample(BENIGN, rng.choice([0, 0, 1, 2])), "mseed": rng.randrange(1 << 30),
+                          "enc": rng.randrange(len(ENCODINGS)), "decl": rng.randrange(5),
+                          "between": rng.choice([0, 0] + list(range(len(BETWEEN)))),
+                          "after": rng.choice([0, 1] + list(range(len(AFTER)))),
+                          "eol": rng.randrange(len(EOLS)), "cdata": rng.random() < 0.3,
+                          "minify": rng.random() < 0.2, "root_style": rng.choice([0, 0, 1, 2, 3]),
+                          "fname": rng.choice([0, 0, 0] + list(range(len(FILE_NAMES))))})
+        n_sess = 4000 if big else 400
+        for i in range(n_sess):
+            kind = rng.choice(SESSION_KINDS)
+            tame = rng.random() < 0.7
+            case = {"stream": "session", "kind": kind,
+                    "docs": [gen_doc(rng, tame=tame), gen_doc(rng, tame=tame)],
+                    "style": rng.random() < 0.4}
+            if kind == "writer_reuse":
+                case["edits"] = rng.sample(EDITS, rng.choice([1, 1, 2, 3]))
+            elif kind == "after_failure":
+                case["bad_text"] = rng.choice(BAD_TEXTS)
+                case["docs"][1] = make_bad(case["docs"][1], rng.choice(
+                    ["tuple_item", "control_char", "control_value", "blank_name", "name_clash", "surrogate"]))
+            elif kind == "generations":
+                case["docs"] = case["docs"][:1]
+            elif kind == "interleave":
+                feats = ["validate", "json", "yaml", "clone", "pprint", "iterate", "other_xml", "other_json",
+                         "export_leaf"] + (["rdf", "finalize"] if finalize_safe(case["docs"][0]) else [])
+                case["features"] = rng.sample(feats, rng.randrange(1, 5))
+            cases.append(case)
+        envs = [{"LC_ALL": "C", "LANG": "C", "PYTHONUTF8": "0", "PYTHONCOERCECLOCALE": "0", "PYTHONHASHSEED": "1"},
+                {"LC_ALL": "POSIX", "PYTHONUTF8": "0", "PYTHONCOERCECLOCALE": "0", "PYTHONHASHSEED": "12345"},
+                {"LC_ALL": "C.UTF-8", "PYTHONHASHSEED": "0"},
+                {"PYTHONUTF8": "1", "PYTHONHASHSEED": "4294967295", "TZ": "Pacific/Kiritimati"},
+                {"LC_ALL": "C", "PYTHONUTF8": "0", "PYTHONCOERCECLOCALE": "0", "PYTHONIOENCODING": "latin-1",
+                 "PYTHONHASHSEED": "77"},
+                {"LANG": "en_US.ISO-8859-1", "PYTHONUTF8": "0", "PYTHONCOERCECLOCALE": "0", "PYTHONHASHSEED": "random"}]
+        n_proc = 48 if big else 6
+        for i in range(n_proc):
+            # documents that are certain to hold text beyond ASCII and beyond Latin-1
+            docs = [gen_doc(rng, tame=True) for _ in range(4 if big else 3)]
+            for d in docs:
+                d["author"] = rng.choice([u"J\xfcrgen \u4e2d \u20ac", u"\xb5 \U0001F600", u"Zo\xeb 100%"])
+            cases.append({"stream": "proc", "docs": docs, "env": envs[i % len(envs)],
+                          "flags": ["-OO"] if i % 4 == 3 else [], "template": rng.randrange(len(TEMPLATES))})
         return cases
+
+    @staticmethod
+    def gen_doc_case(rng):
+        doc = gen_doc(rng, chain=True)
+        case = {"stream": "doc", "doc": doc}
+        if doc.get("chain"):
+            case.update(more=False, fname=0, precreate=False, route="ctor", finalize=False)
+            if rng.random() < 0.5:
+                case["styled_writers"] = rng.sample(STYLED_WRITERS, 1)
+            return case
+        if rng.random() < 0.45:
+            # writer options x entry points: a sample of the eight styled entry points per document
+            case["styled_writers"] = rng.sample(STYLED_WRITERS, rng.choice([1, 2, 2, 3]))
+            case["template"] = rng.randrange(len(TEMPLATES))
+        case["more"] = rng.random() < 0.5             # the round 3 reader / writer entry points as well
+        case["fname"] = rng.choice([0, 0, 0] + list(range(len(FILE_NAMES))))
+        case["precreate"] = rng.random() < 0.3        # an older, longer file is in the way
+        case["route"] = rng.choice(["ctor", "ctor", "setters", "churn"])
+        # (links are followed in about a third of the documents where that is certain to end)
+        case["finalize"] = finalize_safe(doc) and rng.random() < 0.35
+        return case
 
     # -- implementation ------------------------------------------------------
     def impl(self, case):
@@ -731,27 +1406,39 @@ class C01(fw.Check):
             return self.impl_doc(case)
         if st == "foreign":
             return self.impl_foreign(case)
+        if st == "surface":
+            return self.impl_surface(case)
+        if st == "session":
+            return self.impl_session(case)
+        if st == "proc":
+            return self.impl_proc(case)
         raise ValueError(st)
 
     def impl_doc(self, case):
         import odml.info
         try:
-            doc = build_doc(case["doc"])
+            doc = build_doc(case["doc"], case.get("route", "ctor"), case.get("finalize", False))
         except Exception as exc:
             return {"unbuildable": fw.exc_name(exc)}
         mem = snap_doc(doc)
+        if runaway(mem, case["doc"]):
+            return {"unbuildable": "runaway link resolution"}
         voc = vocabulary()
         tmp = tempfile.mkdtemp(prefix="c01_")
+        more = case.get("more", False)
+        name_pat = FILE_NAMES[case.get("fname", 0) % len(FILE_NAMES)]
+        template = TEMPLATES[case.get("template", 0) % len(TEMPLATES)]
         try:
             writes = {}
             plain_text = None
             plain_path = None
-            styled_path = None
-            writers = [w for w in WRITERS if case.get("styled") or w not in STYLED]
+            styled_paths = []
+            writers = [w for w in PLAIN_WRITERS[:4 if not more else len(PLAIN_WRITERS)]]
+            writers += case.get("styled_writers") or (LEGACY_STYLED if case.get("styled") else [])
             for w in writers:
-                res = write_with(w, doc, tmp)
+                res = write_with(w, doc, tmp, name_pat, template, case.get("precreate", False))
                 if "raised" in res:
-                    writes[w] = {"raised": res["raised"]}
+                    writes[w] = {"raised": res["raised"], "file": res.get("file")}
                     continue
                 try:
                     tree = tree_of(parse_text(res["text"]), True, voc)
@@ -760,23 +1447,44 @@ class C01(fw.Check):
                     continue
                 writes[w] = {"tree": tree}
                 if w in STYLED:
-                    styled_path = styled_path or res.get("path")
+                    styled_paths.append((w, res.get("path")))
                 else:
                     plain_text = plain_text or res["text"]
                     plain_path = plain_path or res.get("path")
             loads = {}
             if plain_text is not None and plain_path is not None:
-                for r in READERS:
+                for r in READERS + (READERS_MORE if more else []):
                     loads[r] = load_with(r, plain_text, plain_path)
+                if more:
+                    # the text of the written *file* (XML declaration, stylesheet instruction) handed
+                    # to the string entry points, as a caller does who read the file himself
+                    with io.open(plain_path, "rb") as fh:
+                        ftext = fh.read().decode("utf-8")
+                    for r in ("strict_string", "lenient_string", "odmlreader_string", "strict_stringio"):
+                        loads[r + "@file"] = load_with(r, ftext, plain_path)
             styled = {}
-            if styled_path is not None:
-                with io.open(styled_path, encoding="utf-8") as fh:
-                    stext = fh.read()
-                for r in ("strict_file", "lenient_file", "odml_load"):
-                    styled[r] = load_with(r, stext, styled_path)
-            return {"mem": mem, "writes": writes, "loads": loads, "styled": styled,
+            for i, (w, spath) in enumerate(styled_paths):
+                with io.open(spath, "rb") as fh:
+                    stext = fh.read().decode("utf-8")
+                if "styled_writers" not in case:
+                    for r in ("strict_file", "lenient_file", "odml_load"):
+                        styled[r] = load_with(r, stext, spath)
+                    break
+                readers = ["lenient_file", "odml_load"]
+                if i == 0:
+                    readers += ["strict_file", "lenient_string", "lenient_bytesio", "odml_load_default",
+                                "lenient_stringio"]
+                for r in readers:
+                    styled[r + "@" + w] = load_with(r, stext, spath)
+            valid = None
+            try:
+                from odml.validation import Validation
+                valid = not any(e.is_error for e in Validation(doc).errors)
+            except Exception:
+                pass
+            return {"mem": mem, "writes": squeeze(writes), "loads": squeeze(loads), "styled": squeeze(styled),
                     "mem_after": snap_doc(doc), "format_version": odml.info.FORMAT_VERSION,
-                    "vocab": sorted(voc)}
+                    "vocab": sorted(voc), "valid": valid}
         finally:
             shutil.rmtree(tmp, ignore_errors=True)
 
@@ -799,8 +1507,304 @@ class C01(fw.Check):
             out["loads"][r] = load_with(r, mtext, None)
         return out
 
+    def impl_surface(self, case):
+        import random
+        from lxml import etree
+        from odml.tools.xmlparser import XMLWriter
+        try:
+            doc = build_doc(case["doc"])
+            text = str(XMLWriter(doc))
+        except Exception as exc:
+            return {"unbuildable": fw.exc_name(exc)}
+        mem = snap_doc(doc)
+        rnd = random.Random(case["mseed"])
+        root = etree.fromstring(text.encode("utf-8"))
+        mutate(root, case["ops"], rnd)
+        data, decoded = surface_form(root, case, rnd)
+        tree = tree_of(parse_text(data), True, vocabulary())
+        tmp = tempfile.mkdtemp(prefix="c01_")
+        try:
+            path = os.path.join(tmp, FILE_NAMES[case.get("fname", 0) % len(FILE_NAMES)] % "foreign")
+            with io.open(path, "wb") as fh:
+                fh.write(data)
+            out = {"mem": mem, "tree": tree, "loads": {}}
+            for r in SURFACE_READERS:
+                out["loads"][r] = load_with(r, decoded, path, data)
+            squeeze(out["loads"])
+            return out
+        finally:
+            shutil.rmtree(tmp, ignore_errors=True)
+
+    def impl_session(self, case):
+        import odml
+        from odml.tools.xmlparser import XMLReader, XMLWriter
+        from odml.tools.odmlparser import ODMLReader, ODMLWriter
+        from odml.validation import Validation
+        try:
+            docs = [build_doc(d) for d in case["docs"]]
+        except Exception as exc:
+            return {"unbuildable": fw.exc_name(exc)}
+        kind = case["kind"]
+        mems, checks, refusals = [], [], []
+        tmp = tempfile.mkdtemp(prefix="c01_")
+
+        class Runaway(Exception):
+            pass
+
+        def snap(doc):
+            mems.append(snap_doc(doc))
+            if runaway(mems[-1], {}):
+                raise Runaway()
+            return len(mems) - 1
+
+        def rd(tag, fn, idx, warns_of=None):
+            """one load; the expected document is mems[idx] (None: nothing is expected)"""
+            try:
+                d = fn()
+                res = {"doc": snap_doc(d), "warns": None if warns_of is None else len(warns_of.warnings)}
+            except Exception as exc:
+                res = {"raised": exc_cat(exc)}
+                d = None
+            if idx is not None:
+                checks.append({"tag": tag, "load": res, "mem": idx})
+            return d
+
+        def wr(tag, fn, doc, idx):
+            """one save; -> the result or None when it raised (recorded with the document's validity)"""
+            try:
+                return fn()
+            except Exception as exc:
+                try:
+                    valid = not any(e.is_error for e in Validation(doc).errors)
+                except Exception:
+                    valid = None
+                refusals.append({"tag": tag, "raised": fw.exc_name(exc), "mem": idx, "valid": valid})
+                return None
+
+        def path(name):
+            return os.path.join(tmp, name)
+
+        strict = lambda: XMLReader(show_warnings=False)
+        try:
+            if kind == "writer_reuse":
+                a, b = docs[0], docs[1]
+                w, ow = XMLWriter(a), ODMLWriter("XML")
+                i1 = snap(a)
+                t1 = wr("str#1", lambda: str(w), a, i1)
+                ok1 = wr("write_file#1", lambda: w.write_file(path("p.xml")) or True, a, i1)
+                t0 = wr("to_string(a)#1", lambda: ow.to_string(a), a, i1)
+                if ok1:
+                    rd("file after the first save", lambda: strict().from_file(path("p.xml")), i1)
+                if t0 is not None:
+                    rd("ODMLWriter.to_string(a) before the edit", lambda: strict().from_string(t0), i1)
+                for edit in case["edits"]:
+                    apply_edit(a, edit)
+                i2 = snap(a)
+                t2 = wr("str#2", lambda: str(w), a, i2)
+                ok2 = wr("write_file#2", lambda: w.write_file(path("p.xml")) or True, a, i2)
+                ta1 = wr("to_string(a)#2", lambda: ow.to_string(a), a, i2)
+                if ta1 is not None:
+                    rd("ODMLWriter.to_string(a) right after the edit, same ODMLWriter",
+                       lambda: strict().from_string(ta1), i2)
+                ib = snap(b)
+                tb = wr("to_string(b)", lambda: ow.to_string(b), b, ib)
+                ok3 = wr("ow.write_file(a)", lambda: ow.write_file(a, path("q.xml")) or True, a, i2)
+                ta = wr("to_string(a)", lambda: ow.to_string(a), a, i2)
+                ok4 = wr("ow.write_file(b)", lambda: ow.write_file(b, path("q.xml"),
+                                                                   local_style=case.get("style", False)) or True, b, ib)
+                if t1 is not None:
+                    rd("text of the first save", lambda: strict().from_string(t1), i1)
+                if t2 is not None:
+                    rd("text after the edit, same XMLWriter", lambda: strict().from_string(t2), i2)
+                if ok2:
+                    rd("file saved twice by the same XMLWriter", lambda: strict().from_file(path("p.xml")), i2)
+                elif ok1:
+                    rd("file whose second save was refused", lambda: strict().from_file(path("p.xml")), i1)
+                if tb is not None:
+                    rd("ODMLWriter.to_string(b)", lambda: strict().from_string(tb), ib)
+                if ta is not None:
+                    rd("ODMLWriter.to_string(a) after b", lambda: strict().from_string(ta), i2)
+                if ok4:
+                    rd("file saved for a, then for b by the same ODMLWriter",
+                       lambda: odml.load(path("q.xml"), show_warnings=False), ib)
+                elif ok3:
+                    rd("file saved for a, save of b refused", lambda: odml.load(path("q.xml"), show_warnings=False), i2)
+            elif kind == "reader_reuse":
+                a, b = docs[0], docs[1]
+                ia, ib = snap(a), snap(b)
+                ta = wr("str(a)", lambda: str(XMLWriter(a)), a, ia)
+                tb = wr("str(b)", lambda: str(XMLWriter(b)), b, ib)
+                if ta is not None and tb is not None \
+                        and wr("write_file(a)", lambda: XMLWriter(a).write_file(path("a.xml")) or True, a, ia) \
+                        and wr("odml.save(b)", lambda: odml.save(b, path("b.xml")) or True, b, ib):
+                    for mode in (False, True):
+                        name = "lenient" if mode else "strict"
+                        r = XMLReader(ignore_errors=mode, show_warnings=False)
+                        d1 = rd(name + " reader, 1st call from_string(a)", lambda: r.from_string(ta), ia)
+                        rd(name + " reader, 2nd call from_file(b)", lambda: r.from_file(path("b.xml")), ib)
+                        rd(name + " reader, 3rd call from_string(b)", lambda: r.from_string(tb), ib)
+                        rd(name + " reader, 4th call from_file(a)", lambda: r.from_file(path("a.xml")), ia)
+                        rd(name + " reader, 5th call from_file(StringIO a)",
+                           lambda: r.from_file(io.StringIO(ta)), ia)
+                        if d1 is not None:
+                            rd(name + " reader, document of the 1st call after the later calls", lambda: d1, ia)
+                    orr = ODMLReader("XML", show_warnings=False)
+                    d1 = rd("ODMLReader, 1st call from_file(a)", lambda: orr.from_file(path("a.xml")), ia)
+                    rd("ODMLReader, 2nd call from_string(b)", lambda: orr.from_string(tb), ib)
+                    rd("ODMLReader, 3rd call from_file(b)", lambda: orr.from_file(path("b.xml")), ib)
+                    rd("ODMLReader, 4th call from_file(a)", lambda: orr.from_file(path("a.xml")), ia)
+                    if d1 is not None:
+                        rd("ODMLReader, document of the 1st call after the later calls", lambda: d1, ia)
+            elif kind == "after_failure":
+                a, bad = docs[0], docs[1]
+                ia, ibad = snap(a), snap(bad)
+                ta = wr("str(a)", lambda: str(XMLWriter(a)), a, ia)
+                ow = ODMLWriter("XML")
+                if ta is not None and wr("ow.write_file(a)", lambda: ow.write_file(a, path("a.xml")) or True, a, ia):
+                    damaged = bad_text(ta, case["bad_text"])
+                    with io.open(path("damaged.xml"), "w", encoding="utf-8") as fh:
+                        fh.write(damaged)
+                    for mode in (False, True):
+                        name = "lenient" if mode else "strict"
+                        r = XMLReader(ignore_errors=mode, show_warnings=False)
+                        rd(None, lambda: r.from_string(damaged), None)
+                        rd(name + " reader after a damaged text, from_string", lambda: r.from_string(ta), ia)
+                        rd(None, lambda: r.from_file(path("damaged.xml")), None)
+                        rd(name + " reader after a damaged file, from_file", lambda: r.from_file(path("a.xml")), ia)
+                    orr = ODMLReader("XML", show_warnings=False)
+                    rd(None, lambda: orr.from_file(path("damaged.xml")), None)
+                    rd(None, lambda: orr.from_file(path("missing.xml")), None)
+                    rd("ODMLReader after a damaged and a missing file", lambda: orr.from_file(path("a.xml")), ia)
+                    # a save that is refused must leave the older file as it is
+                    for tag, save in (("ODMLWriter.write_file", lambda: ow.write_file(bad, path("a.xml")) or True),
+                                      ("XMLWriter.write_file", lambda: XMLWriter(bad).write_file(path("a.xml")) or True),
+                                      ("odml.save local_style", lambda: odml.save(bad, path("a.xml"), local_style=True) or True)):
+                        done = wr(tag + "(unrepresentable)", save, bad, ibad)
+                        rd("older file after %s of an unrepresentable document %s" % (tag, "was refused" if not done else "went through"),
+                           lambda: odml.load(path("a.xml"), show_warnings=False), ibad if done else ia)
+                        if done and not wr("ow.write_file(a) again", lambda: ow.write_file(a, path("a.xml")) or True, a, ia):
+                            break
+                    wr("str(unrepresentable)", lambda: str(XMLWriter(bad)), bad, ibad)
+                    done = wr("same ODMLWriter after the refusal", lambda: ow.write_file(a, path("c.xml")) or True, a, ia)
+                    if done:
+                        rd("same ODMLWriter after the refusal", lambda: strict().from_file(path("c.xml")), ia)
+                    t2 = wr("to_string after the refusal", lambda: ow.to_string(a), a, ia)
+                    if t2 is not None:
+                        rd("to_string after the refusal", lambda: strict().from_string(t2), ia)
+            elif kind == "generations":
+                a = docs[0]
+                ia = snap(a)
+                t1 = wr("str(a)", lambda: str(XMLWriter(a)), a, ia)
+                if t1 is not None:
+                    l1 = rd("1st generation (string)", lambda: strict().from_string(t1), ia)
+                    if l1 is not None:
+                        t2 = wr("str(loaded)", lambda: str(XMLWriter(l1)), l1, ia)
+                        if t2 is not None:
+                            l2 = rd("2nd generation (string)", lambda: strict().from_string(t2), ia)
+                            if l2 is not None:
+                                rd("3rd generation (string)",
+                                   lambda: XMLReader(ignore_errors=True, show_warnings=False).from_string(ODMLWriter("XML").to_string(l2)), ia)
+                    kw = {"local_style": True} if case.get("style") else {}
+                    if wr("odml.save(a)", lambda: odml.save(a, path("g1.xml"), **kw) or True, a, ia):
+                        f1 = rd("1st generation (file)", lambda: odml.load(path("g1.xml"), show_warnings=False), ia)
+                        if f1 is not None and wr("odml.save(loaded)", lambda: odml.save(f1, path("g2.xml")) or True, f1, ia):
+                            f2 = rd("2nd generation (file, strict reader)", lambda: strict().from_file(path("g2.xml")), ia)
+                            # a loaded document saved over the file it came from
+                            if f2 is not None and wr("odml.save over the source file",
+                                                     lambda: odml.save(f2, path("g1.xml")) or True, f2, ia):
+                                rd("3rd generation (saved over its source file)",
+                                   lambda: strict().from_file(path("g1.xml")), ia)
+            elif kind == "interleave":
+                a, b = docs[0], docs[1]
+                for feat in case["features"]:
+                    try:
+                        if feat == "validate":
+                            Validation(a).report()
+                        elif feat == "json":
+                            ODMLWriter("JSON").to_string(a)
+                        elif feat == "yaml":
+                            ODMLWriter("YAML").to_string(a)
+                        elif feat == "rdf":
+                            ODMLWriter("RDF").to_string(a)
+                        elif feat == "finalize":
+                            a.finalize()
+                        elif feat == "clone":
+                            a.clone()
+                        elif feat == "pprint":
+                            a.pprint()
+                            repr(a)
+                        elif feat == "iterate":
+                            [q.get_path() for q in a.iterproperties()]
+                            [q.get_path() for q in a.itersections()]
+                        elif feat == "other_xml":
+                            XMLReader(ignore_errors=True, show_warnings=False).from_string(
+                                bad_text(str(XMLWriter(b)), "unknown_tag"))
+                        elif feat == "other_json":
+                            ODMLReader("JSON", show_warnings=False).from_string(ODMLWriter("JSON").to_string(b))
+                        elif feat == "export_leaf":
+                            for q in list(a.iterproperties())[:2]:
+                                q.export_leaf()
+                    except Exception:
+                        pass
+                ia = snap(a)
+                t = wr("str(a) after other features", lambda: str(XMLWriter(a)), a, ia)
+                done = wr("odml.save(a) after other features", lambda: odml.save(a, path("i.xml")) or True, a, ia)
+                try:
+                    ODMLReader("JSON", show_warnings=False).from_string(ODMLWriter("JSON").to_string(b))
+                    ODMLWriter("YAML").to_string(b)
+                except Exception:
+                    pass
+                if t is not None:
+                    rd("text written after other features", lambda: strict().from_string(t), ia)
+                if done:
+                    rd("file written after other features", lambda: odml.load(path("i.xml"), show_warnings=False), ia)
+                try:
+                    c = a.clone(keep_id=True)
+                except Exception:
+                    c = None
+                if c is not None:
+                    ic = snap(c)
+                    tc = wr("str(clone)", lambda: str(XMLWriter(c)), c, ic)
+                    if tc is not None:
+                        rd("clone(keep_id=True) of the document", lambda: strict().from_string(tc), ic)
+                        # the clone keeps every id: it is the same document
+                        rd("clone(keep_id=True) against the original", lambda: strict().from_string(tc), ia)
+            return {"mems": mems, "checks": checks, "refusals": refusals}
+        except Runaway:
+            return {"unbuildable": "runaway link resolution"}
+        finally:
+            shutil.rmtree(tmp, ignore_errors=True)
+
+    def impl_proc(self, case):
+        """the round trip in a fresh interpreter with another locale / hash seed / optimisation level"""
+        import json
+        import subprocess
+        env = dict(os.environ)
+        for k in ("LC_ALL", "LC_CTYPE", "LANG", "LANGUAGE", "PYTHONUTF8", "PYTHONIOENCODING",
+                  "PYTHONCOERCECLOCALE", "PYTHONHASHSEED", "PYTHONOPTIMIZE"):
+            env.pop(k, None)
+        env.update(case["env"])
+        here = os.path.dirname(os.path.abspath(__file__))
+        env["PYTHONPATH"] = here + os.pathsep + env.get("PYTHONPATH", "")
+        env["PYTHONDONTWRITEBYTECODE"] = "1"
+        cmd = [sys.executable] + list(case.get("flags", [])) + [os.path.abspath(__file__), "--child"]
+        payload = json.dumps({"docs": case["docs"], "template": TEMPLATES[case.get("template", 0) % len(TEMPLATES)]},
+                             ensure_ascii=True).encode("ascii")
+        try:
+            proc = subprocess.run(cmd, input=payload, stdout=subprocess.PIPE, stderr=subprocess.PIPE, env=env,
+                                  timeout=600)
+        except subprocess.TimeoutExpired:
+            return {"child_failed": "timeout"}
+        if proc.returncode != 0:
+            return {"child_failed": proc.returncode, "stderr": proc.stderr.decode("utf-8", "replace")[-800:]}
+        lines = [ln for ln in proc.stdout.decode("ascii", "replace").split("\n") if ln.startswith("{")]
+        if not lines:
+            return {"child_failed": "no answer", "stderr": proc.stderr.decode("utf-8", "replace")[-800:]}
+        return json.loads(lines[-1])
+
     # -- model ---------------------------------------------------------------
     def model_requests(self, case, obs):
+        obs = unsqueeze(obs)
         st = case["stream"]
         P = {"p": "C01"}
         if st == "csvlib":
@@ -812,9 +1816,13 @@ class C01(fw.Check):
                 return [dict(P, op="to_csv", vals=case["vals"]), dict(P, op="from_csv", s=obs["text"])]
             return [dict(P, op="from_csv", s=case["text"])]
         if st == "doc":
-            if "unbuildable" in obs:
-                return []
-            reqs = [dict(P, op="write", doc=obs["mem"])]
+            if "unbuildable" in obs or case["doc"].get("surrogate") or case["doc"].get("chain"):
+                return []       # (a lone surrogate cannot be put into a Lean String, a chain of 250
+                                #  Sections is too deep for the driver's JSON reader: oracle only)
+            # (the compiled writer model re-evaluates the Sub-Sections once per format key: its
+            # running time grows tenfold per nesting level; from depth 5 on the written tree is
+            # judged by the oracle and by the reader model only)
+            reqs = [dict(P, op="write", doc=obs["mem"])] if depth_of(obs["mem"]) < 5 else []
             plain = self.first_tree(obs, styled=False)
             if plain is not None:
                 reqs.append(dict(P, op="read", mode="strict", x=plain))
@@ -824,12 +1832,12 @@ class C01(fw.Check):
                 reqs.append(dict(P, op="read", mode="strict", x=st_tree))
                 reqs.append(dict(P, op="read", mode="lenient", x=st_tree))
             return reqs
-        if st == "foreign":
+        if st in ("foreign", "surface"):
             if "unbuildable" in obs:
                 return []
             return [dict(P, op="read", mode="strict", x=obs["tree"]),
                     dict(P, op="read", mode="lenient", x=obs["tree"])]
-        return []
+        return []           # session, proc: oracle only
 
     @staticmethod
     def first_tree(obs, styled):
@@ -855,7 +1863,7 @@ class C01(fw.Check):
         if "raised" in load:
             out.append("%s: model loads a document, implementation raises %s" % (tag, load["raised"]))
             return out
-        md, im = answer["ok"], load["doc"]
+        md, im = unname(answer["ok"]), load["doc"]
         for path, a, b in diff(md, im):
             leafname = path.rsplit("/", 1)[-1]
             if a is None and leafname == "id":
@@ -868,6 +1876,7 @@ class C01(fw.Check):
         return out
 
     def compare(self, case, obs, answers):
+        obs = unsqueeze(obs)
         st = case["stream"]
         out = []
         if st == "csvlib":
@@ -891,11 +1900,12 @@ class C01(fw.Check):
                 if answers[0] != want:
                     out.append("from_csv gives %r, model %r" % (want, answers[0]))
         elif st == "doc" and answers:
-            w = answers[0]
+            deep = depth_of(obs["mem"]) >= 5
+            w = {} if deep else answers[0]
             voc = set(obs["vocab"])
             for name in WRITERS:
                 res = obs["writes"].get(name)
-                if res is None:
+                if res is None or deep:
                     continue
                 if "raised" in res:
                     if "raised" not in w:
@@ -914,18 +1924,18 @@ class C01(fw.Check):
                 if d:
                     out.append("%s: written tree differs from the model at %s: model %r, implementation %r"
                                % (name, d[0][0], d[0][1], d[0][2]))
-            idx = 1
+            idx = 0 if deep else 1
             if self.first_tree(obs, styled=False) is not None:
                 strict, lenient = answers[idx], answers[idx + 1]
                 idx += 2
                 for r, load in sorted(obs["loads"].items()):
-                    out += self.cmp_read(r, strict if r in STRICT else lenient, load)
+                    out += self.cmp_read(r, strict if reader_of(r) in STRICT else lenient, load)
             if self.first_tree(obs, styled=True) is not None:
                 strict, lenient = answers[idx], answers[idx + 1]
                 for r, load in sorted(obs["styled"].items()):
-                    out += self.cmp_read("styled/" + r, strict if r in STRICT else lenient, load)
+                    out += self.cmp_read("styled/" + r, strict if reader_of(r) in STRICT else lenient, load)
             # inside the proved hypotheses the model itself must return the trimmed document
-            if w.get("wf") and w.get("repr") and "ok" in w and len(answers) > 1:
+            if not deep and w.get("wf") and w.get("repr") and "ok" in w and len(answers) > 1:
                 a = answers[1]
                 if "ok" not in a or diff(a["ok"], w["trim"]) or a["warns"] != 0:
                     out.append("model: readXml(strict, writeXml d) is not (trimDoc d, 0 warnings) although "
@@ -933,12 +1943,16 @@ class C01(fw.Check):
         elif st == "foreign" and answers:
             out += self.cmp_read("strict_string", answers[0], obs["loads"]["strict_string"])
             out += self.cmp_read("lenient_string", answers[1], obs["loads"]["lenient_string"])
+        elif st == "surface" and answers:
+            for r, load in sorted(obs["loads"].items()):
+                out += self.cmp_read(r, answers[0] if reader_of(r) in STRICT else answers[1], load)
         return out[:6]
 
     # -- oracle (the round-trip law over the public API; independent of the model) ------------
     def oracle(self, case, obs):
         if "harness_exception" in obs or "unbuildable" in obs:
             return []
+        obs = unsqueeze(obs)
         st = case["stream"]
         out = []
         if st == "csv" and "vals" in case:
@@ -950,13 +1964,17 @@ class C01(fw.Check):
                            % (case["vals"], obs["back"], want, obs["text"]))
         elif st == "doc":
             out += self.oracle_doc(obs)
-        elif st == "foreign" and case["benign"]:
+        elif st == "session":
+            out += self.oracle_session(obs)
+        elif st == "proc":
+            out += self.oracle_proc(obs)
+        elif st == "surface" or (st == "foreign" and case["benign"]):
             want = trim_doc(obs["mem"])
             flags = shape_flags(obs["mem"])
             self._sep_props = tuple_sep_props(obs["mem"])
             self._clash = clash_lists(obs["mem"])
             for r, load in sorted(obs["loads"].items()):
-                out += self.judge_load("foreign/" + r, load, want, flags, count_warnings=True)
+                out += self.judge_load(st + "/" + r, load, want, flags, count_warnings=True)
         return out
 
     def judge_load(self, tag, load, want, flags, count_warnings):
@@ -1021,21 +2039,81 @@ class C01(fw.Check):
             if tree != trees[0][1]:
                 out.append("%s and %s wrote different documents" % (trees[0][0], w))
         if raised and trees:
-            out.append("writers disagree: %s raised, %s wrote" % (raised, [w for w, _ in trees]))
+            out.append("writers disagree: %s raised, %s wrote" % (sorted(raised), [w for w, _ in trees]))
+        # round 3: "it is never written in altered form" - a refused save neither creates the file
+        # nor touches an older file at that place
+        for w in sorted(raised):
+            if obs["writes"][w].get("file") == "altered":
+                out.append("REFUSED-SAVE %s raised %s and left a new or altered file behind"
+                           % (w, obs["writes"][w]["raised"]))
+        # round 3: a valid document with none of the shapes XML cannot express has to be written
+        if raised and obs.get("valid") and must_write(mem):
+            out.append("REFUSED %s raised %s on a valid document that XML can represent"
+                       % (sorted(raised), sorted(set(obs["writes"][w]["raised"] for w in raised))))
         for r, load in sorted(obs["loads"].items()):
             out += self.judge_load(r, load, want, flags, count_warnings=True)
         for r, load in sorted(obs["styled"].items()):
-            if r in STRICT:
+            if reader_of(r) in STRICT:
                 continue                  # the property promises the styled file to odml.load only
             out += self.judge_load("styled/" + r, load, want, flags, count_warnings=False)
         return out
 
+    def judge(self, tag, load, mem, count_warnings=False):
+        self._sep_props = tuple_sep_props(mem)
+        self._clash = clash_lists(mem)
+        return self.judge_load(tag, load, trim_doc(mem), shape_flags(mem), count_warnings)
+
+    def oracle_session(self, obs):
+        out = []
+        for ref in obs["refusals"]:
+            mem = obs["mems"][ref["mem"]]
+            if ref["valid"] and must_write(mem):
+                out.append("REFUSED session/%s raised %s on a valid document that XML can represent"
+                           % (ref["tag"], ref["raised"]))
+        for chk in obs["checks"]:
+            mem = obs["mems"][chk["mem"]]
+            if not must_write(mem) and "raised" in chk["load"]:
+                continue      # nothing was promised for the text of such a document
+            out += self.judge("session/" + chk["tag"], chk["load"], mem)
+            if len(out) > 8:
+                break
+        return out
+
+    def oracle_proc(self, obs):
+        out = []
+        if "child_failed" in obs:
+            return ["PROC the round trip could not be run in a fresh interpreter: %s %s"
+                    % (obs["child_failed"], obs.get("stderr", "")[-300:])]
+        for i, res in enumerate(obs["results"]):
+            if "unbuildable" in res:
+                continue
+            mem = res["mem"]
+            for w, r in sorted(res["writes"].items()):
+                if "raised" in r and res.get("valid") and must_write(mem):
+                    out.append("REFUSED proc[%s]/%s raised %s on a valid document that XML can represent"
+                               % (obs.get("encoding"), w, r["raised"]))
+            for r, load in sorted(res["loads"].items()):
+                if not must_write(mem) and "raised" in load:
+                    continue
+                out += self.judge("proc[%s]/%d/%s" % (obs.get("encoding"), i, r), load, mem)
+            if len(out) > 8:
+                break
+        return out
+
     def finding_key(self, case, obs, failure):
+        obs = unsqueeze(obs)
         if failure.startswith("DIFF[uncertainty_number]"):
             return "uncertainty_number_loaded_as_str"
+        # round 3: the readers cannot load what the writer wrote for Sections nested 255 or more
+        # levels deep (libxml2's depth limit): only a refused LOAD of a plainly written chain that deep
+        if failure.startswith("LOAD ") and " raised parser " in failure and case.get("stream") == "doc" \
+                and isinstance(obs.get("mem"), dict) and xml_depth(obs["mem"]) > 256 \
+                and not any("raised" in w for w in obs["writes"].values()):
+            return "deep_nesting_written_not_loadable"
         return None
 
     def tag(self, case, obs):
+        obs = unsqueeze(obs)
         st = case["stream"]
         if st == "csvlib":
             src = u"".join(case.get("row", [])) + case.get("text", u"")
@@ -1046,15 +2124,71 @@ class C01(fw.Check):
             return ("csv:" + ("roundtrip" if "vals" in case else "read"), any(c in src for c in u',"\r\n[]'))
         if "unbuildable" in obs or "harness_exception" in obs:
             return (st + ":unbuildable", False)
+        if st == "session":
+            return ("session:" + case["kind"], len(obs["checks"]) > 0)
+        if st == "proc":
+            return ("proc", "results" in obs)
+        if st == "surface":
+            enc = ENCODINGS[case["enc"] % len(ENCODINGS)]
+            return ("surface:%s" % (enc[0] or "undeclared-" + enc[1]), "raised" not in obs["loads"]["strict_file"])
         if st == "doc":
             if any("raised" in r for r in obs["writes"].values()):
                 return ("doc:writer-raises", True)
+            if case["doc"].get("chain"):
+                return ("doc:chain", True)
             nvals = sum(len(p["values"]) for s in walk_secs(obs["mem"]["secs"]) for p in s["props"])
-            return ("doc:" + ("styled" if case.get("styled") else "plain"), nvals > 0)
+            return ("doc:" + ("styled" if case.get("styled") or case.get("styled_writers") else "plain")
+                    + ":" + case.get("route", "ctor") + (":finalized" if case.get("finalize") else ""), nvals > 0)
         loads = obs["loads"]["lenient_string"]
         return ("foreign:" + ("benign" if case["benign"] else "damaged") + (":raised" if "raised" in loads else ":loaded"),
                 "raised" not in loads)
 
 
+def child_main():
+    """runs in a fresh interpreter (stream `proc`): documents on stdin, one JSON line on stdout"""
+    import json
+    import locale
+    spec = json.loads(sys.stdin.buffer.read().decode("utf-8"))
+    out = {"results": [], "encoding": locale.getpreferredencoding(False),
+           "hashseed": os.environ.get("PYTHONHASHSEED"), "optimize": sys.flags.optimize}
+    with fw.quiet():
+        from odml.validation import Validation
+        for d in spec["docs"]:
+            try:
+                doc = build_doc(d)
+            except Exception as exc:
+                out["results"].append({"unbuildable": fw.exc_name(exc)})
+                continue
+            res = {"mem": snap_doc(doc), "writes": {}, "loads": {}}
+            try:
+                res["valid"] = not any(e.is_error for e in Validation(doc).errors)
+            except Exception:
+                res["valid"] = None
+            tmp = tempfile.mkdtemp(prefix="c01_")
+            try:
+                text = None
+                for w in ("xmlwriter_str", "odml_save_default", "write_file", "odml_save_local_style",
+                          "write_file_custom_template"):
+                    r = write_with(w, doc, tmp, u"%s.xml", spec["template"])
+                    if "raised" in r:
+                        res["writes"][w] = {"raised": r["raised"]}
+                        continue
+                    res["writes"][w] = {}
+                    if "path" not in r:
+                        text = r["text"]
+                        res["loads"]["strict_string"] = load_with("strict_string", text, None)
+                        continue
+                    for rd in (("lenient_file", "odml_load") if w in STYLED else
+                               ("strict_file", "odml_load_default", "strict_fileobj")):
+                        res["loads"][rd + "@" + w] = load_with(rd, r["text"], r["path"])
+            finally:
+                shutil.rmtree(tmp, ignore_errors=True)
+            out["results"].append(res)
+    sys.stdout.write(json.dumps(out, ensure_ascii=True, default=repr) + "\n")
+    return 0
+
+
 if __name__ == "__main__":
+    if sys.argv[1:2] == ["--child"]:
+        sys.exit(child_main())
     sys.exit(fw.main(C01(), sys.argv[1:]))
